@@ -91,7 +91,9 @@ fn main() {
             let threads = arg_u64(&args, "--threads", std::thread::available_parallelism().map_or(8, |n| n.get() as u64)) as usize;
             let with_model = arg_u64(&args, "--model", 1) == 1;
             let replay_dir = args.iter().position(|a| a == "--replay-dir").and_then(|i| args.get(i + 1)).cloned().unwrap_or_else(|| "/verif/work/replays".into());
-            if let Some(i) = args.iter().position(|a| a == "--replay") {
+            if args.iter().any(|a| a == "--shared-cache") {
+                ib::shared_cache_campaign(seed, cases, max_ops, 3, &mut st);
+            } else if let Some(i) = args.iter().position(|a| a == "--replay") {
                 ib::replay(&args[i + 1], with_model, &mut st);
             } else {
                 ib::campaign(profile, blob, seed, cases, max_ops, threads, with_model, std::path::Path::new(&replay_dir), &mut st);
